@@ -33,6 +33,7 @@ def run(chk):
     conformance(chk)
     native_grid(chk)
     native_beamline(chk)
+    native_cascade(chk)
 
 
 def symbolic_grid(chk, kname):
@@ -119,7 +120,7 @@ def chopper_kernels(chk):
         return
     chk.function('tof.chopper_cascade', 'wavelength_to_inverse_velocity')
     chk.function('tof.chopper_cascade', 'propagate_times')
-    for dt in (F64, F32):
+    for dt in (F64, F32, I64):
         mk = lambda: arg('wavelength', 'length', dtype=dt)
         paths = chk.explore(lambda: mod.wavelength_to_inverse_velocity(mk()), base=kit.CONST_AXIOMS, catch=CATCH)
         for p in paths:
@@ -129,19 +130,73 @@ def chopper_kernels(chk):
                 w = mk()
                 chk.prove(f'tof.chopper_cascade:wavelength_to_inverse_velocity/formula[{dt}]', hyps_of(p), p.value.si == w.si * M / H)
                 chk.decided(f'tof.chopper_cascade:wavelength_to_inverse_velocity/unit-s/m[{dt}]', p.value.unit == NAMED['s'] / NAMED['m'], detail=str(p.value.unit))
-        for ddt in (F64, F32, I64):
-            mk2 = lambda: dict(time=arg('time', 'time', dtype=dt), wavelength=arg('wavelength', 'length', dtype=dt),
-                               distance=arg('distance', 'length', dtype=ddt))
-            paths = chk.explore(lambda: mod.propagate_times(**mk2()), base=kit.CONST_AXIOMS, catch=CATCH)
-            for p in paths:
-                ok = p.kind == 'return'
-                tag = f'{dt},distance:{ddt}'
-                chk.decided(f'tof.chopper_cascade:propagate_times/no-raise[{tag}]', ok, detail=repr(p.value)[:200])
-                if ok:
-                    a = mk2()
-                    chk.prove(f'tof.chopper_cascade:propagate_times/formula[{tag}]', hyps_of(p),
-                              p.value.si == a['time'].si + a['distance'].si * a['wavelength'].si * M / H)
-                    chk.decided(f'tof.chopper_cascade:propagate_times/unit-of-time[{tag}]', p.value.unit == a['time'].unit, detail=str(p.value.unit))
+    # every operand in float64 / float32 / int64 independently: an integer time or wavelength is a number like any other
+    # ("every other numeric operand type gives double precision"); the flight time must never be rounded to the storage
+    # type of the time operand.  Precision for single-precision times is not claimed either way (section 0.8).
+    for tdt, wdt, ddt in itertools.product((F64, F32, I64), repeat=3):
+        mk2 = lambda: dict(time=arg('time', 'time', dtype=tdt), wavelength=arg('wavelength', 'length', dtype=wdt),
+                           distance=arg('distance', 'length', dtype=ddt))
+        paths = chk.explore(lambda: mod.propagate_times(**mk2()), base=kit.CONST_AXIOMS, catch=CATCH)
+        for p in paths:
+            ok = p.kind == 'return'
+            tag = f'time:{tdt},wavelength:{wdt},distance:{ddt}'
+            meta = {'cascade': {'time': str(tdt), 'wavelength': str(wdt), 'distance': str(ddt)}}
+            chk.decided(f'tof.chopper_cascade:propagate_times/no-raise[{tag}]', ok, detail=repr(p.value)[:200], meta=meta)
+            if ok:
+                a = mk2()
+                chk.prove(f'tof.chopper_cascade:propagate_times/formula[{tag}]', hyps_of(p),
+                          p.value.si == a['time'].si + a['distance'].si * a['wavelength'].si * M / H, meta=meta)
+                chk.decided(f'tof.chopper_cascade:propagate_times/unit-of-time[{tag}]', p.value.unit == a['time'].unit, detail=str(p.value.unit), meta=meta)
+                chk.decided(f'tof.chopper_cascade:propagate_times/double-unless-single-precision-time[{tag}]',
+                            p.value.dtype == F64 or (tdt == F32 and p.value.dtype == F32), detail=str(p.value.dtype), meta=meta)
+
+
+CASCADE_UNITS = {'time': ('ns', 'us', 'ms', 's'), 'wavelength': ('angstrom', 'nm', 'm'), 'distance': ('mm', 'm', 'km')}
+
+
+def cascade_failures(limit=10 ** 6):
+    """[B] the real propagate_times over the whole unit x dtype grid (4*3*3 units x 27 dtype combinations = 972 cells): the same
+    physical operands in any unit and storage type give t + d*lambda*m_n/h to rounding, in the unit of the time, as a double
+    unless the time is single precision."""
+    import numpy as np
+    import scipp as sc
+    from vf.realrun import real_module
+    cc = real_module('tof.chopper_cascade')
+    k = (sc.constants.m_n / sc.constants.h).to(unit='s/m**2').value
+    SI = {'ns': 1e-9, 'us': 1e-6, 'ms': 1e-3, 's': 1.0, 'angstrom': 1e-10, 'nm': 1e-9, 'm': 1.0, 'mm': 1e-3, 'km': 1e3}
+    fails, cases = [], 0
+    for tu, wu, du in itertools.product(*CASCADE_UNITS.values()):
+        for td, wd, dd in itertools.product(('float64', 'float32', 'int64'), repeat=3):
+            cases += 1
+            # small integers: representable in every storage type; two elements so that the operands are arrays
+            tv, wv, dv = np.array([3, 7]), np.array([2, 5]), 4
+            t = sc.array(dims=['vertex'], values=tv, unit=tu, dtype=td)
+            w = sc.array(dims=['vertex'], values=wv, unit=wu, dtype=wd)
+            d = sc.scalar(dv, unit=du, dtype=dd)
+            want_s = tv * SI[tu] + dv * SI[du] * wv * SI[wu] * k
+            cell = {'id': f'{tu}-{wu}-{du}-{td}-{wd}-{dd}', 'units': [tu, wu, du], 'dtypes': [td, wd, dd]}
+            try:
+                r = cc.propagate_times(time=t, wavelength=w, distance=d)
+            except Exception as e:  # noqa: BLE001
+                fails.append(dict(cell, problem=f'raised {type(e).__name__}: {e}'[:300]))
+                continue
+            got_s = np.asarray(r.values, dtype='float64') * SI[tu]
+            rtol = 1e-5 if str(r.dtype) == 'float32' else 1e-12
+            if str(r.unit) != str(sc.Unit(tu)):
+                fails.append(dict(cell, problem=f'unit {r.unit}, expected that of the time ({tu})'))
+            elif not (str(r.dtype) == 'float64' or (td == 'float32' and str(r.dtype) == 'float32')):
+                fails.append(dict(cell, problem=f'result dtype {r.dtype}'))
+            elif not np.allclose(got_s, want_s, rtol=rtol, atol=0):
+                fails.append(dict(cell, problem=f'{got_s.tolist()} s, expected {want_s.tolist()} s'))
+            if len(fails) >= limit:
+                return cases, fails
+    return cases, fails
+
+
+def native_cascade(chk):
+    cases, fails = cascade_failures()
+    chk.bounded_check('cascade-unit-dtype-grid', 'real propagate_times vs t + d*lambda*m_n/h (value to rounding, unit of the time, double unless single-precision time)',
+                      f'all {cases} cells of the unit (ns..s, angstrom/nm/m, mm/m/km) x dtype (float64, float32, int64 per operand) grid', cases, fails[:40])
 
 
 def conformance(chk):
@@ -179,6 +234,17 @@ def conformance(chk):
 
 
 def replay(rec):
+    if '/bounded/cascade-unit-dtype-grid/' in rec['obligation'] or 'propagate_times' in rec['obligation']:
+        f = rec.get('meta', {}).get('replay') or {}
+        want = rec.get('meta', {}).get('cascade')
+        _, fails = cascade_failures()
+        if 'id' in f:
+            hit = [x for x in fails if x['id'] == f['id']]
+        elif want:
+            hit = [x for x in fails if x['dtypes'] == [want['time'], want['wavelength'], want['distance']]]
+        else:
+            hit = fails
+        return {'reproduced': bool(hit), 'case': hit[:1]}
     if '/bounded/beamline-unit-dtype-shapes/' in rec['obligation'] or '_drop_due_to_gravity' in rec['obligation']:
         from contracts import C04
         f = rec.get('meta', {}).get('replay') or {}
